@@ -105,7 +105,7 @@ def explore(chk):
         "(bytes preserved, delimiters / spaces / controls not introduced, escapes kept), E3: orbit of repeated application "
         "followed to a fixed point. distinct_nontrivial = distinct output tuples." % (m.k, len(m.tokens), m.core_k, len(m.core_tokens))
     )
-    failures, tags = grid.run(chk, g, None, evaluate)
+    failures, tags = grid.run(chk, g, None, evaluate, shrink=(lambda case: {"s": case["s"]}, g.simplify, fails_fn))
     chk.add("transitions", chk.cov["states"] * len(FNS) * 2)
     chk.add("evaluations", chk.cov["states"] * len(FNS))
     chk.cov["bounds"] = {"k": m.k, "alphabet": len(m.tokens), "core_k": m.core_k, "core_alphabet": len(m.core_tokens)}
@@ -116,4 +116,3 @@ def explore(chk):
         chk.clause(PROP + ".bytes." + fn, checked=n, nontrivial=tags["changed." + fn])
         chk.clause(PROP + ".idem." + fn, checked=n, nontrivial=tags["changed." + fn])
     chk.clause(PROP + ".upper_quoted", checked=n, nontrivial=tags["changed.upper_quoted"])
-    core.reduce_failures(chk, [(c, {"s": case["s"]}, e, g) for (c, case, e, g) in failures], g.simplify, fails_fn)
